@@ -4,7 +4,14 @@ set -e
 cd "$(dirname "$0")"
 export GOFLAGS=-mod=mod GOPROXY=off GOSUMDB=off GOTOOLCHAIN=local
 mkdir -p build gen evidence
-( cd coq && coq_makefile -f _CoqProject -o Makefile >/dev/null && timeout 3000 make -j16 )
+python3 - <<'PY'
+import sys, os
+sys.path.insert(0, "lib")
+import driver
+ok, log = driver.build_coq()
+print(log[-3000:])
+sys.exit(0 if ok else 1)
+PY
 cp /repo/go.sum harness/go.sum
 ( cd harness && go build -tags verif -o ../build/harness . )
 ( cd /repo && go build -tags verif -o /verif/build/csvq . )
